@@ -2,131 +2,8 @@
    apply batches) is the same as applying them one at a time: the apply premise of Lin/Protocol.v, discharged
    by CITING coq/Determ/Proofs.v (batch_equiv_replies, batch_equiv_panic). Consequently every theorem about
    Protocol holds for the system with grouped application (reachableB). *)
-From ZV Require Import Lin.Spec Lin.Checker Lin.CheckerProofs Lin.Protocol Lin.Route Lin.ProtocolProofs Lin.Batching.
-From ZV Require Determ.Consts Determ.Model Determ.Proofs.
+From ZV Require Import Lin.Spec Lin.Checker Lin.CheckerProofs Lin.Protocol Lin.Route Lin.ProtocolProofs Lin.DetermAdapter Lin.Batching.
 From Coq Require Import Lia.
-Module DM := Determ.Model.
-
-(* ------------------------------------------------------------------ the instance satisfies C07's two hypotheses *)
-Lemma nlist_eqb_eq : forall a b, nlist_eqb a b = true <-> a = b.
-Proof.
-  induction a as [|x a IH]; destruct b as [|y b]; simpl; split; intro H; try discriminate; try reflexivity.
-  - apply andb_true_iff in H. destruct H as [H1 H2]. apply N.eqb_eq in H1. apply IH in H2. subst; reflexivity.
-  - inversion H; subst. rewrite N.eqb_refl. simpl. apply IH. reflexivity.
-Qed.
-
-Lemma nlist_eqb_refl : forall a, nlist_eqb a a = true.
-Proof. intros. apply nlist_eqb_eq. reflexivity. Qed.
-
-(* only operations on the string key are registered under a batchable command name *)
-Lemma batchable_pk : forall q o, DM.name_batchable q = true ->
-  nlist_eqb (DM.rname q) (bytes_of_string (op_cmd o)) = true -> op_pk o = [0%N].
-Proof.
-  intros q o Hb He. apply nlist_eqb_eq in He. unfold DM.name_batchable in Hb. rewrite He in Hb.
-  destruct o; try reflexivity; vm_compute in Hb; discriminate.
-Qed.
-
-Lemma spec_isolation : forall t q q' s' ws r s,
-  DM.name_batchable q = true -> DM.name_batchable q' = true -> DM.rpk q <> DM.rpk q' ->
-  spec_handler t q' s' = DM.Ok ws r ->
-  spec_handler t q (DM.commit_ws state state (fun _ w => w) s ws) = spec_handler t q s.
-Proof.
-  intros t q q' s' ws r s Hb Hb' Hne Hq'. unfold spec_handler in *.
-  destruct (lookup (DM.rid q) t) as [o|]; [|reflexivity].
-  destruct (nlist_eqb (DM.rname q) (bytes_of_string (op_cmd o)) && nlist_eqb (DM.rpk q) (op_pk o)) eqn:E; [|reflexivity].
-  exfalso. apply andb_true_iff in E. destruct E as [E1 E2].
-  destruct (lookup (DM.rid q') t) as [o'|]; [|discriminate].
-  destruct (nlist_eqb (DM.rname q') (bytes_of_string (op_cmd o')) && nlist_eqb (DM.rpk q') (op_pk o')) eqn:E'; [|discriminate].
-  apply andb_true_iff in E'. destruct E' as [E1' E2'].
-  apply nlist_eqb_eq in E2, E2'. rewrite (batchable_pk q o Hb E1) in E2. rewrite (batchable_pk q' o' Hb' E1') in E2'.
-  apply Hne. congruence.
-Qed.
-
-Lemma spec_no_abort : forall t q s e, DM.name_batchable q = true -> DM.rvalid q = true ->
-  spec_handler t q s <> DM.Fail e true.
-Proof.
-  intros t q s e _ _. unfold spec_handler. destruct (lookup (DM.rid q) t) as [o|]; [|discriminate].
-  destruct (_ && _); [|discriminate]. destruct (step s o). discriminate.
-Qed.
-
-(* ------------------------------------------------------------------ one at a time on the instance = Spec.step *)
-Fixpoint run_st (s : state) (ents : list entry) : state :=
-  match ents with [] => s | e :: t => run_st (fst (step s (e_op e))) t end.
-
-Fixpoint run_out (s : state) (ents : list entry) : list (N * res) :=
-  match ents with
-  | [] => []
-  | e :: t => (N.of_nat (e_id e), snd (step s (e_op e))) :: run_out (fst (step s (e_op e))) t
-  end.
-
-Definition seq_apply (t : list (N * op)) (s : state) (l : list DM.req) :=
-  DM.seq_run state state res (fun _ w => w) (spec_handler t) (fun _ s0 => (s0, RNil)) (fun _ => RNil) RNil s l.
-
-Lemma seq_apply_run : forall t ents s,
-  (forall e, In e ents -> lookup (N.of_nat (e_id e)) t = Some (e_op e)) ->
-  seq_apply t s (map req_of ents) = Some (run_st s ents, run_out s ents).
-Proof.
-  intros t ents; induction ents as [|e ents IH]; intros s Hl; simpl; [reflexivity|].
-  unfold seq_apply in *. simpl. unfold DM.seq_step. simpl.
-  unfold spec_handler at 1. simpl. rewrite (Hl e (or_introl eq_refl)). rewrite !nlist_eqb_refl. simpl.
-  destruct (step s (e_op e)) as [s' r] eqn:Es. simpl.
-  rewrite IH by (intros e' He'; apply Hl; right; exact He'). reflexivity.
-Qed.
-
-Lemma lookup_tbl : forall ents e, NoDup (map e_id ents) -> In e ents -> lookup (N.of_nat (e_id e)) (tbl_of ents) = Some (e_op e).
-Proof.
-  induction ents as [|x ents IH]; intros e Hnd Hin; [contradiction|]. simpl. inversion Hnd; subst.
-  destruct Hin as [->|Hin]; [rewrite N.eqb_refl; reflexivity|].
-  destruct (N.eqb (N.of_nat (e_id x)) (N.of_nat (e_id e))) eqn:E; [|apply IH; assumption].
-  exfalso. apply N.eqb_eq in E. apply Nat2N.inj in E. apply H1. rewrite E. apply in_map; exact Hin.
-Qed.
-
-Lemma reply_of_run_out : forall ents s j e, NoDup (map e_id ents) -> nth_error ents j = Some e ->
-  DM.reply_of res (N.of_nat (e_id e)) (run_out s ents) = Some (snd (step (run_st s (firstn j ents)) (e_op e))).
-Proof.
-  induction ents as [|x ents IH]; intros s j e Hnd Hn; [destruct j; discriminate|].
-  inversion Hnd; subst. destruct j as [|j]; simpl in *.
-  - inversion Hn; subst. rewrite N.eqb_refl. reflexivity.
-  - destruct (N.eqb (N.of_nat (e_id x)) (N.of_nat (e_id e))) eqn:E.
-    + exfalso. apply N.eqb_eq in E. apply Nat2N.inj in E. apply H1. rewrite E. apply in_map. eapply nth_error_In; eauto.
-    + apply IH; assumption.
-Qed.
-
-(* THE BRIDGE: whatever the partition of the entries into apply batches, the store and every request's reply
-   are those of applying Spec.step entry by entry (C07's batch_equiv_replies on this instance) *)
-Theorem batched_is_sequential : forall ents p s s1 o1 e1,
-  NoDup (map e_id ents) -> DM.flatten p = map req_of ents ->
-  batched_apply (tbl_of ents) s p = Some (s1, o1, e1) ->
-  s1 = run_st s ents /\
-  forall j e, nth_error ents j = Some e ->
-    DM.reply_of res (N.of_nat (e_id e)) o1 = Some (snd (step (run_st s (firstn j ents)) (e_op e))).
-Proof.
-  intros ents p s s1 o1 e1 Hnd Hfl Hb.
-  assert (Hseq : seq_apply (tbl_of ents) s (DM.flatten p) = Some (run_st s ents, run_out s ents)).
-  { rewrite Hfl. apply seq_apply_run. intros e He. apply lookup_tbl; assumption. }
-  assert (Hids : NoDup (map DM.rid (DM.flatten p))).
-  { rewrite Hfl. rewrite map_map. simpl. clear - Hnd. induction ents as [|x ents IH]; simpl; [constructor|].
-    inversion Hnd; subst. constructor; [|apply IH; assumption].
-    intros Hin. apply in_map_iff in Hin. destruct Hin as [y [Hy Hin]]. apply Nat2N.inj in Hy. apply H1. rewrite <- Hy. apply in_map; exact Hin. }
-  destruct (Determ.Proofs.batch_equiv_replies state state res (fun _ w => w) (spec_handler (tbl_of ents))
-              (fun _ s0 => (s0, RNil)) (fun _ => RNil) RNil RNil (fun _ _ => false)
-              (spec_isolation (tbl_of ents)) (spec_no_abort (tbl_of ents))
-              false false p s s1 o1 e1 (run_st s ents) (run_out s ents) Hids Hb Hseq) as [E1 E2].
-  split; [exact E1|]. intros j e Hn. rewrite E2. apply reply_of_run_out; assumption.
-Qed.
-
-(* a group never makes the state machine panic (the one-at-a-time run does not) *)
-Theorem batched_defined : forall ents p s, NoDup (map e_id ents) -> DM.flatten p = map req_of ents ->
-  batched_apply (tbl_of ents) s p <> None.
-Proof.
-  intros ents p s Hnd Hfl Hn.
-  apply (Determ.Proofs.batch_equiv_panic state state res (fun _ w => w) (spec_handler (tbl_of ents))
-              (fun _ s0 => (s0, RNil)) (fun _ => RNil) RNil RNil (fun _ _ => false)
-              (spec_isolation (tbl_of ents)) (spec_no_abort (tbl_of ents)) false false p s) in Hn.
-  rewrite Hfl in Hn. unfold seq_apply in *.
-  pose proof (seq_apply_run (tbl_of ents) ents s) as H. unfold seq_apply in H. rewrite H in Hn; [discriminate|].
-  intros e He. apply lookup_tbl; assumption.
-Qed.
 
 Lemma in_firstn_skipn : forall (A : Type) (l : list A) k n y, In y (firstn n (skipn k l)) -> In y l.
 Proof.
@@ -178,7 +55,7 @@ Section Sim.
     let rs := g_rep g r in
     let ents := map c_ent (firstn n (skipn (r_applied rs) (g_log g))) in
     (forall j e, nth_error ents j = Some e ->
-       DM.reply_of res (N.of_nat (e_id e)) outs = Some (snd (step (run_st (r_st rs) (firstn j ents)) (e_op e)))) ->
+       breply (N.of_nat (e_id e)) outs = Some (snd (step (run_st (r_st rs) (firstn j ents)) (e_op e)))) ->
     s1 = run_st (r_st rs) ents ->
     geq (group_result g r ents outs s1) (applyn apply_impl n g r).
   Proof.
@@ -284,17 +161,15 @@ End Sim.
    open batch before the second one (its primary key is already in dupCheckMap), so the second reads the
    first's write: exactly one wins *)
 Definition ex_ents : list entry := [mkEntry 0 1 (OSetIfAbsent 5); mkEntry 1 2 (OSetIfAbsent 6); mkEntry 2 3 (OLPush 9)].
-Definition ex_partition : list (list DM.call) := [[DM.mkCall false [req_of (mkEntry 0 1 (OSetIfAbsent 5))];
-                                                  DM.mkCall false [req_of (mkEntry 1 2 (OSetIfAbsent 6))];
-                                                  DM.mkCall false [req_of (mkEntry 2 3 (OLPush 9))]]].
+Definition ex_partition : list (list bcall) := [map call_of ex_ents].
 
 Example batch_example :
-  DM.flatten ex_partition = map req_of ex_ents /\
+  bflatten ex_partition ex_ents /\
   match batched_apply (tbl_of ex_ents) init ex_partition with
   | Some (s1, outs, evs) =>
       s1 = mkState (Some 5%Z) None [9%Z] [] /\
-      DM.reply_of res 0 outs = Some ROk /\ DM.reply_of res 1 outs = Some RNil /\ DM.reply_of res 2 outs = Some (RInt 1) /\
-      existsb (fun e => match e with DM.EC true => true | _ => false end) evs = true
+      breply 0 outs = Some ROk /\ breply 1 outs = Some RNil /\ breply 2 outs = Some (RInt 1) /\
+      commit_in_batch evs = true
   | None => False
   end.
 Proof. vm_compute. repeat split; reflexivity. Qed.
